@@ -28,7 +28,7 @@
    the monitor on the implementation's traces): the history-level counting in S2/S3/S4 and L for the
    loop/executor half. *)
 From Coq Require Import List NArith Bool Arith.
-From GS Require Import Base ReqMgr ReqMgrProofs ReqMgrLive ReqMgrCC ReqMgrInv ReqMgrInvK.
+From GS Require Import Base ReqMgr ReqMgrProofs ReqMgrLive ReqMgrCC ReqMgrInv ReqMgrInvK ReqMgrNoStuck.
 Import ListNotations.
 
 (* S1, full: for every plan and every label sequence the event history of the run contains no delivery
@@ -108,6 +108,36 @@ Theorem C04_cancelled_request_not_parked : forall p s en,
   handle (MRelease p) s = Some (terminate en true s, []).
 Proof. exact release_cancelled_terminates. Qed.
 Print Assumptions C04_cancelled_request_not_parked.
+
+(* L, part 1 (deadlock freedom), FULL: in every reachable state (every plan, every interleaving) in which the
+   returned channels are not both closed, some non-environment label is enabled -- the actor loop, the
+   worker, the executor, the traverser, a rendezvous on an internal channel, a collector step, or the caller
+   receiving (assumption "the caller keeps reading": the two caller labels count as enabled moves) -- unless
+   the request is legitimately waiting: its context is neither cancelled by the caller nor locally, and it
+   is either paused (waiting for UnpauseRequest) or running, online, with nothing queued, in BlockReadOpener
+   (waiting for the responder).  Proved over the finite abstraction: 10272 control states x 220 collector
+   states, 29 (condition, label) witnesses each proved sound on the concrete state. *)
+Theorem C04_no_stuck : forall pl ls s es,
+  run (init pl) ls = Some (s, es) -> both_closed s = false ->
+  (exists l, In l (internal_labels ++ caller_labels) /\ enabled s l = true) \/ waiting s.
+Proof. exact no_stuck. Qed.
+Print Assumptions C04_no_stuck.
+
+(* hence: once the caller has cancelled (context) or the request is cancelled locally (API cancel, failure
+   status, hook error: rctx), no reachable state with an open returned channel is stuck; and once a terminal
+   status has set the loader offline, a request that is not paused is never stuck either *)
+Theorem C04_no_stuck_after_cancel : forall pl ls s es,
+  run (init pl) ls = Some (s, es) -> both_closed s = false -> cctx s = true \/ rctx s = true ->
+  exists l, In l (internal_labels ++ caller_labels) /\ enabled s l = true.
+Proof. exact no_stuck_cancelled. Qed.
+Print Assumptions C04_no_stuck_after_cancel.
+
+Theorem C04_no_stuck_offline : forall pl ls s es,
+  run (init pl) ls = Some (s, es) -> both_closed s = false -> ropen s = false ->
+  (forall e, ent s = Some e -> e_state e <> Paused) ->
+  exists l, In l (internal_labels ++ caller_labels) /\ enabled s l = true.
+Proof. exact no_stuck_offline. Qed.
+Print Assumptions C04_no_stuck_offline.
 
 (* L, collector half (partial).  Assumptions, explicit: the caller keeps reading (LCallerRecvP /
    LCallerRecvE are among the labels counted as enabled) and the two collector goroutines are scheduled
